@@ -276,6 +276,27 @@ theorem C10_time_bounds_slack (log : List Msg) (hmono : TimesMonotone log) (s e 
     have : NS * (s / NS) ≤ NS * (t / NS) := Nat.mul_le_mul_left _ hs
     omega
 
+/-- **Relative ranges.** A relative range `[s, e)` is anchored at the index's whole-second `t0`
+(the floor of the true first P1 time `T0`), as `bounds` computes it. Then a P1-timed message at least
+one second inside `[T0 + s, T0 + e)` is returned, and a returned one is less than two seconds before
+`T0 + s` and less than one second after `T0 + e`. -/
+theorem C10_time_bounds_relative (log : List Msg) (hmono : TimesMonotone log) (T0 s e : Nat) (i : Nat) (m : Msg)
+    (t : Nat) (hi : log[i]? = some m) (ht : m.timeNs = some t) :
+    bounds ⟨false, some s, some e, none⟩ (some (T0 / NS)) = (some (T0 / NS * NS + s), some (T0 / NS * NS + e)) ∧
+    (T0 + s + NS ≤ t ∧ t + NS < T0 + e → inTime log (some (T0 / NS * NS + s)) (some (T0 / NS * NS + e)) i = true) ∧
+    (inTime log (some (T0 / NS * NS + s)) (some (T0 / NS * NS + e)) i = true → T0 + s < t + 2 * NS ∧ t < T0 + e + NS) := by
+  have hNS : 0 < NS := by decide
+  have h1 := Nat.div_add_mod T0 NS
+  have h2 := Nat.mod_lt T0 hNS
+  have hm : NS * (T0 / NS) = T0 / NS * NS := Nat.mul_comm _ _
+  have hs := C10_time_bounds_slack log hmono (T0 / NS * NS + s) (T0 / NS * NS + e) i m t hi ht
+  refine ⟨rfl, ?_, ?_⟩
+  · rintro ⟨ha, hb⟩
+    exact hs.1 ⟨by omega, by omega⟩
+  · intro h
+    have := hs.2 h
+    omega
+
 /-- **A range entirely after the log returns nothing** (no P1 time at or after the floored start). -/
 theorem C10_range_after_log_empty (log : List Msg) (s : Nat) (stop : Option Nat)
     (hafter : ∀ m ∈ log, ∀ t, m.timeNs = some t → t / NS < s / NS) (i : Nat) (hi : i < log.length) :
